@@ -115,6 +115,7 @@ def run(ctx):
     r.check(okr, "%s#remove-iff-full-refresh" % mt.qname, "removal flag is not `fetched_all_topics and brokers non-empty`", where(mt, mt.node),
             "partial refresh (one topic) prunes every other broker")
     um = [c for c in calls_in(ub, "updateMetadata")]
+    deps = "?"
     okm = len(um) == 1 and isinstance(um[0].func.value, ast.Subscript)
     if okm:
         loops = [x for x in walk_body_shallow(ub.body) if isinstance(x, ast.For) and um[0] in list(ast.walk(x))]
@@ -126,7 +127,7 @@ def run(ctx):
         kv = unparse(loops[0].target.elts[0])
         okm = deps in (["%s not in self.clients" % kv], ["%s in self.clients" % kv])
     r.check(okm, "%s#own-entry" % ub.qname, "an existing client is not updated with its own entry whenever that client exists "
-            "(conditions: %s)" % (deps if um else "?"), where(ub, ub.node),
+            "(conditions: %s)" % (deps,), where(ub, ub.node),
             "broker re-addressed under the same id: the `unchanged` test compares with a cache that was updated two lines earlier, the "
             "client never learns the new address and reconnects to the old one for ever")
     # sibling tables: `clients` and `_brokers` are both keyed by node id; on a full refresh the ids missing from the reply
@@ -208,6 +209,18 @@ def run(ctx):
                 ok = bool(res) and not case_reach(ch, "", cls, anc_, False, leave, flag_eval=fe, start=[hn.id], avoid=res)
             r.check(ok, "%s#on(%s)->%s" % (hr.qname, cls, meth), "%s does not invalidate the cached routing (before re-raising)" % cls,
                     where(hr, hr.node), "the next request is routed to the same wrong broker, for ever")
+    # ... and every response gets there: no way through the function that skips the classification of a response
+    rp_ = hr.params[1] if len(hr.params) > 1 else "responses"
+    lps = [n for n in ch.nodes if n.kind == "for" and norm(at(ctx, hr, n.id, n.stmt.iter)) == rp_]
+    cls_nodes = [n.id for n in ch.nodes if any(call_name(c) == "raise_for_errno" for c in n.calls())]
+    okc = len(lps) == 1 and bool(cls_nodes) and not ch.normal_exits_from(ch.entry.id, avoid=[lps[0].id])
+    if okc:
+        body0 = [t for t, lab in ch.succ[lps[0].id] if lab == ("iter", True)]
+        okc = bool(body0) and body0[0] != lps[0].id and (body0[0] in cls_nodes or lps[0].id not in ch.reach(body0, avoid=cls_nodes, follow_exc=False))
+    r.check(okc, "%s#every-response-classified" % hr.qname, "a path through the response handler returns without classifying every "
+            "response by its error code", where(hr, hr.node), "a caller that neither wants errors raised nor results transformed (the "
+            "producer) gets the responses back unexamined: a not-leader answer no longer invalidates the route, every later send goes "
+            "to the old leader")
     sba = ctx.func(KC + "._send_broker_aware_request")
     cs = ctx.cfg(sba)
     rz = [n for n in cs.nodes if n.kind == "stmt" and isinstance(n.stmt, ast.Raise) and "FailedPayloadsError" in norm(n.stmt)]
@@ -274,7 +287,7 @@ def run(ctx):
             where(glp, glp.node), "after an invalidation the partition stays unroutable")
 
     # ---- R5 next-connect address
-    r = ctx.rule("R5", "the endpoint is built from host/port read at connect time; updateMetadata checks the node id first", 2, "A")
+    r = ctx.rule("R5", "the endpoint is built from host/port read at connect time; updateMetadata checks the node id first", 3, "A")
     conn = ctx.func("brokerclient:_KafkaBrokerClient._connect")
     # the function that builds the endpoint: it has to be one of the closures run per attempt (not _connect's own body,
     # which runs once while retries happen later)
@@ -295,6 +308,36 @@ def run(ctx):
     r.check(len(ws) == 2 and guarded and
             {norm(node_assign_value(n, a)) for n in ws for a in ("host", "port") if node_assign_value(n, a) is not None} == {"%s.host" % p1, "%s.port" % p1},
             "%s#checked-update" % um.qname, "host/port are not taken from the new entry after checking its node id", where(um, um.node))
+
+    # every broker entry a response names is applied to the address book and to the broker client that exists for that
+    # node, whatever the client knew before: where a routing table receives a broker entry taken from a response, the
+    # same entry is handed to _update_brokers, and that hand-over depends on nothing but the response
+    ci = prog.cls(KC)
+    ub = ctx.func(KC + "._update_brokers")
+    n_sites = 0
+    for f in sorted([x for x in prog.funcs.values() if x.cls is ci], key=lambda x: x.qname):
+        cf_ = ctx.cfg(f)
+        for n in cf_.nodes:
+            st = n.stmt
+            if not (n.kind == "stmt" and isinstance(st, ast.Assign) and len(st.targets) == 1 and isinstance(st.targets[0], ast.Subscript)
+                    and self_attr(st.targets[0].value) == "_group_to_coordinator"):
+                continue
+            if isinstance(st.value, ast.Constant) and st.value.value is None:
+                continue
+            n_sites += 1
+            upd = [m for m in cf_.nodes if any(prog.resolve_call(f, c) is ub for c in m.calls())]
+            always = bool(upd) and (cf_.dominates([m.id for m in upd], n.id) or not cf_.normal_exits_from(n.id, avoid=[m.id for m in upd]))
+            foreign = []
+            for m in upd:
+                for t, lab in cf_.control_deps_transitive(m.id):
+                    if t.kind == "test" and any(c_.startswith("self.") for c_ in chains_in(at(ctx, f, t.id, t.stmt.test))):
+                        foreign.append(norm(t.stmt.test))
+            r.check(always and not foreign, "%s#coordinator-address-applied" % f.qname,
+                    "the coordinator a response names is recorded as the group's route, but its address is not handed to _update_brokers "
+                    "on every path%s" % (" (only when %s)" % sorted(set(foreign)) if foreign else ""), where(f, st),
+                    "the coordinator moved to a new address under a known node id: the route names the new address, the broker client "
+                    "that is dialled keeps the old one - commits and group requests go to the wrong host")
+    need(n_sites >= 1, "store of the group coordinator not found")
 
 
 MUTANTS = [
